@@ -312,7 +312,7 @@ theorem strat_ok (f : Nat) (ha : AccOK f) (hr : RevOK f) (hw : WalkOK f) : Strat
 
 theorem InvX.setS {off} {s : St} (h : InvX off s) (i : Nat) (v : SlotVar) (hv : SlotOK s.G v.slot) :
     InvX off { s with S := aset s.S i v } := by
-  refine ⟨h.keys, h.lt, h.ok, h.disj, h.himpl, ?_, h.fwdC, h.noerr⟩
+  refine ⟨h.keys, h.lt, h.ok, h.disj, h.himpl, ?_, h.fwdC, h.noerr, h.own⟩
   intro j w hw
   simp only [aget_aset] at hw
   split at hw
@@ -486,14 +486,14 @@ theorem emit_ok (f : Nat) (hst : StratOK f) (hl : LoopOK f) : EmitOK (f+1) := by
               have hB : (skel im ++ [(s.next, true)]).map (·.1) = s.next :: [] := by simp [skel, hcells]
               simp only [hcells] at hr
               split at hr
-              · exact hst P s1 i s.next s.next arg strat (skel im) _ s2 o2 v2 h1 hb1 hB hr
+              · exact hst P s1 i s.next s.next arg (strat.forFlavour fl) (skel im) _ s2 o2 v2 h1 hb1 hB hr
               · exact hl P s1 i s.next s.next arg 0 (skel im) s2 o2 v2 h1 hb1 (by rw [hB]; simp) hr
             | cons c t =>
               have hB : (skel im ++ [(s.next, true)]).map (·.1) = c.id :: (t.map (·.id) ++ [s.next]) := by
                 simp [skel, hcells, List.map_map, Function.comp_def]
               simp only [hcells] at hr
               split at hr
-              · exact hst P s1 i c.id s.next arg strat (skel im) _ s2 o2 v2 h1 hb1 hB hr
+              · exact hst P s1 i c.id s.next arg (strat.forFlavour fl) (skel im) _ s2 o2 v2 h1 hb1 hB hr
               · exact hl P s1 i c.id s.next arg 0 (skel im) s2 o2 v2 h1 hb1 (by rw [hB]; simp) hr
           obtain ⟨im2, hi2, hx2, pre, post, hsk2⟩ := hb1.frame g12.frame
           have hex2 : im2.exec = im.exec + 1 := by
@@ -520,7 +520,7 @@ theorem emit_ok (f : Nat) (hst : StratOK f) (hl : LoopOK f) : EmitOK (f+1) := by
                 obtain ⟨c, hc, rfl⟩ := List.mem_map.mp hk
                 exact Or.inl (List.mem_map.mpr ⟨c, epiImpl_cells_sub im2 _ c hc, rfl⟩)
               · intro c hc; exact g12.inv.fwdC i im2 hi2 c (epiImpl_cells_sub im2 _ c hc)
-            exact this.congr ca cb cc cd (by rw [ce]; exact Nat.le_refl _)
+            exact this.congr ca cb cc cd (by rw [ce]; exact Nat.le_refl _) (epilogue_ownedG _ _ _)
           have hfr : Frame s (epilogue s2 i s.next) := by
             refine Frame.bracket hi h01n h01o h01v g12.frame (by rw [ce]; exact Nat.le_refl _) ?_ ?_ ?_ ?_
             · intro j hj; rw [ca, aget_aset_other _ _ _ _ hj]
@@ -573,7 +573,7 @@ theorem all_ok : ∀ f, AllOK f := by
 /-! ## top level -/
 
 theorem inv_init : Inv ({} : St) := by
-  refine ⟨by simp, ?_, ?_, ?_, ?_, ?_, ?_, rfl⟩
+  refine ⟨by simp, ?_, ?_, ?_, ?_, ?_, ?_, rfl, fun p hp => by simp at hp⟩
   · intro i im h; simp [aget] at h
   · intro i im h; simp [aget] at h
   · intro i j im jm h; simp [aget] at h
